@@ -337,6 +337,35 @@ OnesAt(path) ==
      + SumSeq([g \in 1 .. Len(L.groups) |-> DimSize(L.groups[g]) + OnesAt(Append(path, L.groups[g].name))])
      + SumSeq([d \in 1 .. Len(L.data) |-> DataHdrSize(L.data[d])])
 
+\* size_bytes evaluated at pairwise DISTINCT counts (an argument that is forwarded
+\* to the wrong group, or not at all, changes the result): the k-th count
+\* parameter (top-to-bottom order; for a group its own count is the first) is
+\* DCnt(k), the payload total is DataTotal.  "This parameter represents the
+\* total number of group entries (even if they are spread across multiple
+\* enclosing group entries)": a group definition with c entries in total, whose
+\* parent level has pc instances in total, contributes pc headers and c blocks.
+DCnt(k) == k + 2
+PathPrefix(p, q) == Len(p) <= Len(q) /\ SubSeq(q, 1, Len(p)) = p
+\* the levels at and below `path`, in top-to-bottom order (AllLevels is depth first)
+Below(path) == SelectSeq([i \in 1 .. NLv |-> i], LAMBDA i : PathPrefix(path, AllLevels[i].path))
+RankIn(seq, x) == CHOOSE k \in 1 .. Len(seq) : seq[k] = x
+\* total instances of level i when evaluating at `path`: own = the count of
+\* `path` itself (1 for a message: the root block exists once)
+DInst(path, own, i) ==
+  LET b == Below(path)
+  IN IF AllLevels[i].path = path THEN own
+     ELSE DCnt(RankIn(b, i) - (IF own = 1 THEN 1 ELSE 0))
+DLevelData(i) == SumSeq([d \in 1 .. Len(AllLevels[i].def.data) |-> DataHdrSize(AllLevels[i].def.data[d])])
+\* own = 1: message (ranks of the groups below start at 1); own = DCnt(1): group (its own count is parameter 1)
+DistinctSize(path, own) ==
+  LET b == Below(path)
+  IN SumSeq([k \in 1 .. Len(b) |->
+       LET i == b[k]
+           inst == DInst(path, own, i)
+           parent == IF AllLevels[i].path = path THEN 0 ELSE LevIdx(Front(AllLevels[i].path))
+       IN inst * LevBL[i] + inst * DLevelData(i)
+          + (IF parent = 0 THEN 0 ELSE DInst(path, own, parent) * DimSize(AllLevels[i].def))])
+
 LevelLists(L, path) ==
   T("field_tags", ListStr(ChildPaths(path, L.fields)))
   \o T("group_tags", ListStr(ChildPaths(path, L.groups)))
@@ -355,6 +384,7 @@ GroupEnt(g, path) ==
          \o T("dimension_type", "tag:" \o dp) \o T("dimension_type_tag", dp)
          \o T("size_bytes_0", Str(DimSize(g)))
          \o T("size_bytes_1", Str(DimSize(g) + OnesAt(p) + (IF HasData(g) THEN DataTotal ELSE 0)))
+         \o T("size_bytes_d", Str(DimSize(g) + DistinctSize(p, DCnt(1)) + (IF HasData(g) THEN DataTotal ELSE 0)))
          \o T("rt_size_bytes", "uint64")
          \o LevelLists(g, p) \o Kinds("group"))
      \o LevelMembers(g, p)
@@ -374,6 +404,7 @@ MessageEnt(m) ==
          \o T("schema_tag", "schema")
          \o T("size_bytes_0", Str(HeaderSize + LevBL[LevIdx(p)] + LevelHeaders(m)))
          \o T("size_bytes_1", Str(HeaderSize + OnesAt(p) + (IF HasData(m) THEN DataTotal ELSE 0)))
+         \o T("size_bytes_d", Str(HeaderSize + DistinctSize(p, 1) + (IF HasData(m) THEN DataTotal ELSE 0)))
          \o T("rt_size_bytes", "uint64")
          \o LevelLists(m, p) \o Kinds("message"))
      \o LevelMembers(m, p)
